@@ -126,6 +126,11 @@ RefReduce(func, s, kw) ==
     [] func = "nanmedian"-> Quantile(d, <<1, 2>>)
     [] func = "quantile" -> Quantile(s, kw.q)
     [] func = "nanquantile" -> Quantile(d, kw.q)
+    \* intended whole-group semantics of the driver's user-defined aggregations (harness/userlib.py)
+    [] func = "user_range"    -> Sub(MaxSeq(s), MinSeq(s))
+    [] func = "user_nanrange" -> IF d = <<>> THEN NaN ELSE Sub(MaxSeq(d), MinSeq(d))
+    [] func = "user_meansq"   -> Div(SumSeq([i \in 1..Len(s) |-> Sq(s[i])]), I(Len(d)))
+    [] func = "user_maxofsums" -> SumSeq(s)   \* (not a lawful decomposition; never compared)
 
 IsArgFunc(func) == func \in {"argmax", "argmin", "nanargmax", "nanargmin"}
 IsNanSkipping(func) ==
@@ -145,6 +150,7 @@ Specified(func, s) ==
     [] func \in {"nanargmax", "nanargmin"} -> d # <<>>
     [] func \in {"median", "nanmedian", "quantile", "nanquantile"} ->
          \A i \in 1..Len(s) : ~IsInf(s[i])
+    [] func = "user_nanrange" -> d # <<>>   \* user library: needs min_count >= 1 to be defined on all-NaN groups
     [] OTHER -> TRUE
 
 (***************************************************************************)
